@@ -234,6 +234,19 @@ func (v *env) eval1(c Case) hx.Result {
 		content := v.cs[c.contentI]
 		// a cache of its own for every case: results must not depend on earlier injections
 		cache, _ := cdi.NewCache(cdi.WithSpecDirs(v.dirs[c.contentI]...), cdi.WithAutoRefresh(false))
+		if len(c.Request)%2 == 0 {
+			// half of the cases: a cache with a past - created in automatic mode for the same directories in
+			// the reverse order, then reconfigured to the order under test (the order decides what shadows what)
+			dirs := v.dirs[c.contentI]
+			rev := make([]string, len(dirs))
+			for i, d := range dirs {
+				rev[len(dirs)-1-i] = d
+			}
+			cache, _ = cdi.NewCache(cdi.WithSpecDirs(rev...), cdi.WithAutoRefresh(true))
+			_ = cache.ListDevices()
+			_ = cache.Configure(cdi.WithSpecDirs(dirs...))
+			defer func() { _ = cache.Configure(cdi.WithAutoRefresh(false)) }()
+		}
 		// reference composition
 		combined := specs.ContainerEdits{}
 		seen := map[*fileDef]bool{}
